@@ -62,6 +62,8 @@ QUICK = [
     ("rec_nested", C.rec_nested, ("reiterated",)),
     ("retry_sibling", C.retry_sibling, ()),
     ("retry_chain", C.retry_chain, ("default_used",)),
+    ("retry_sibling_default", lambda: C.retry_sibling(3, 2, True), ("default_used",)),
+    ("rec_side_input", C.rec_side_input, ("reiterated",)),
 ]
 
 # Readers OUTSIDE a recurrent subgraph: the documentation does not say which iteration's value they see, so the
